@@ -1,6 +1,7 @@
 package chain
 
 import (
+	"time"
 	"context"
 	"crypto/sha256"
 	"encoding/hex"
@@ -164,6 +165,15 @@ func makeEncoding() encoding {
 	return encoding{reg: reg, cdc: cdc, txCfg: authtx.NewTxConfig(cdc, authtx.DefaultSignModes)}
 }
 
+// Header context of the blocks this process produces. A replay under another initial height, block time
+// and proposer must give the same results: the module's behaviour is a function of its store and the
+// transaction, not of where in the chain's life the block sits.
+var (
+	InitialHeight int64 = 1
+	BlockTimeBase time.Time
+	Proposer      []byte
+)
+
 // New builds a chain and runs InitChain with the given genesis. A panic of the
 // module's InitGenesis is returned as an error.
 func New(gen Genesis) (c *Chain, err error) {
@@ -209,11 +219,11 @@ func New(gen Genesis) (c *Chain, err error) {
 			err = fmt.Errorf("init panic: %v", r)
 		}
 	}()
-	if _, err := app.InitChain(&abci.RequestInitChain{ChainId: ChainID, AppStateBytes: bz, InitialHeight: 1}); err != nil {
+	if _, err := app.InitChain(&abci.RequestInitChain{ChainId: ChainID, AppStateBytes: bz, InitialHeight: InitialHeight, Time: BlockTimeBase}); err != nil {
 		return nil, err
 	}
 	// commit genesis as block 1 (empty)
-	c.Height = 0
+	c.Height = InitialHeight - 1
 	c.DeliverBlock(nil)
 	return c, nil
 }
@@ -270,10 +280,17 @@ func (c *Chain) EncodeTx(msgs []sdk.Msg) ([]byte, error) {
 	return c.TxCfg.TxEncoder()(b.GetTx())
 }
 
+func blockTime(h int64) time.Time {
+	if BlockTimeBase.IsZero() {
+		return BlockTimeBase
+	}
+	return BlockTimeBase.Add(time.Duration(h) * 6 * time.Second)
+}
+
 // DeliverBlock runs FinalizeBlock + Commit over raw transaction bytes.
 func (c *Chain) DeliverBlock(txs [][]byte) []TxResult {
 	c.Height++
-	res, err := c.App.FinalizeBlock(&abci.RequestFinalizeBlock{Height: c.Height, Txs: txs})
+	res, err := c.App.FinalizeBlock(&abci.RequestFinalizeBlock{Height: c.Height, Txs: txs, Time: blockTime(c.Height), ProposerAddress: Proposer})
 	if err != nil {
 		panic(fmt.Errorf("FinalizeBlock: %w", err))
 	}
